@@ -22,7 +22,7 @@ import propkit
 import vlib
 
 MANIFEST = {
-  "text": "proof: over a transcription of forward.py's integration kernels and host code with an ABSTRACT forward(): semi-implicit Euler update (_advance: new velocity feeds the position update, time, warmstart), unit norm of every free/ball quaternion written by _next_position for every input, harmlessness of the in-place launch, rungekutta4 = RK4 tableau on the field frozen at t0 (= classical RK4 iff forward() ignores time; refuted otherwise with a witness replayed on the real code), stage-order facts on the regenerated host skeleton. NOT proved: forward() itself, the implicit linear solves / derivative content (C27, C06), float32 rounding - these are only tested by the lock-step oracle against mujoco.mj_step",
+  "text": "proof: over a transcription of forward.py's integration kernels and host code with an ABSTRACT forward(): semi-implicit Euler update (_advance: new velocity feeds the position update, time, warmstart), unit norm of every free/ball quaternion written by _next_position for every input, harmlessness of the in-place launch, rungekutta4 = classical RK4 with nodes (0,1/2,1/2,1) also for a time-dependent forward() (stage i evaluated at t0 + c_i h), stage-order facts on the regenerated host skeleton. NOT proved: forward() itself, the implicit linear solves / derivative content (C27, C06), float32 rounding - these are only tested by the lock-step oracle against mujoco.mj_step",
   "note": "trusted: Coq kernel; translate.py (quat_integrate, validated in C23); extract_launch.py; hand transcription Model/Integrate.v (validated every run against the real kernels and host functions); binary64 model vs float32 kernels compared with tolerance 1e-4",
   "technique": "Rocq proof over hand model + T-translated quat_integrate, S facts by vm_compute, correspondence by vm_compute at binary64 vs real kernels / host functions, differential oracle vs MuJoCo C",
   "engine": "coq",
@@ -33,7 +33,9 @@ INTS = {"euler": 0, "rk4": 1, "implicit": 2, "implicitfast": 3}
 KEY_SIGN = "C08:implicit:rne-derivative-sign"
 KEY_FREE = "C08:implicitfast:childless-free-body-rne-derivative"
 KEY_RKTIME = "C08:rk4:stage-time-not-advanced"
-CLASSIFIED = (KEY_SIGN, KEY_FREE, KEY_RKTIME)
+# keys of findings that are still open in /repo (KEY_SIGN and KEY_RKTIME were repaired; their directed
+# witnesses stay as regression cases and count as NEW failing inputs if they fail again)
+CLASSIFIED = (KEY_FREE,)
 
 F = vlib.fhex
 FL = vlib.flist
@@ -242,6 +244,16 @@ def cases_rk_accumulate_time(rng, n):
     term = f"@accum float Sc {F(scale)} {FL(rv)} {FL(v)} ++ @accum float Sc {F(scale)} {FL(ra)} {FL(a)} ++ @accum float Sc {F(scale)} {FL(rv)} {FL(a)}"
     lines.append(f"tv3 0x1p-13 (fun Sc => {term}) {FL(exp)}")
     meta.append({"kernel": "_rk_accumulate_*", "scale": float(scale), "impl": exp.tolist()})
+  # _rk_stage_time: time_t0 + scale * timestep
+  for c in range(max(4, n // 4)):
+    h = np.float32(10.0 ** rng.uniform(-3, -1))
+    t = np.float32(rng.uniform(0, 50))
+    sc = np.float32([0.5, 1.0, rng.uniform(-1, 2)][c % 3])
+    wt = wp.zeros(1, dtype=float)
+    wp.launch(fw._rk_stage_time, dim=1, inputs=[wp.array([h], dtype=float), wp.array([t], dtype=float), float(sc)], outputs=[wt])
+    exp = wt.numpy().astype(np.float64)
+    lines.append(f"tv3 0x1p-18 (fun Sc => [@rk_stage_time float Sc (@Build_model float {F(h)} [] []) {F(t)} {F(sc)}]) {FL(exp)}")
+    meta.append({"kernel": "_rk_stage_time", "t": float(t), "h": float(h), "scale": float(sc), "impl": exp.tolist()})
   # _next_time: time + timestep (overflow flags are C16's)
   kern = fw._next_time_builder(False)
   for c in range(max(4, n // 4)):
@@ -381,7 +393,7 @@ def correspondence(res, quick):
     ("_next_position", cases_next_position(rng, 120 * n)),
     ("_next_velocity", cases_next_velocity(rng, 40 * n)),
     ("_next_activation", cases_next_activation(rng, 120 * n)),
-    ("_rk_accumulate/_next_time", cases_rk_accumulate_time(rng, 30 * n)),
+    ("_rk_accumulate/_rk_stage_time/_next_time", cases_rk_accumulate_time(rng, 30 * n)),
     ("host _advance/euler/rungekutta4 with affine forward", cases_host(rng, 32 * n)),
   ]
   lines = [l for _, (ls, _) in groups for l in ls]
@@ -561,7 +573,8 @@ def directed(res):
       out.append((k, f"{name}: mjw.step disagrees with mujoco.mj_step after 1 step in {b[0][0]} by {b[0][1]:.3g} (bound {b[0][2]:.3g})", {"xml": xml, "integrator": name, "qpos0": d0["qpos"].tolist(), "qvel0": list(qvel0), "steps": 1, "fails": [list(x[:3]) for x in b]}))
     else:
       res.nontrivial(("directed-agrees", key))
-  # RK4 with a delayed control: replay of the model witness rk4_nonautonomous_refuted
+  # RK4 with a delayed control (time-dependent forward): regression case of the repaired finding
+  # C08:rk4:stage-time-not-advanced; model-level counterpart: C08_rk4_time_dependent_example
   m = mujoco.MjModel.from_xml_string(RK_DELAY_XML)
   ctrls = [[float(np.sin(1.0 + i * 1.3))] for i in range(10)]
   for integ, expect in ((INTS["euler"], "control"), (INTS["rk4"], "test")):
